@@ -46,7 +46,7 @@ class WindowManager:
         :rtype: ``None``
         """
         self.current_window_size -= size
-        if self.current_window_size < 0:
+        if size and self.current_window_size < 0:
             raise FlowControlError("Flow control window shrunk below 0")
 
     def window_opened(self, size):
